@@ -336,9 +336,12 @@ def op_rec(n, i=0, j=0, c="", t=None, b=0, m=0, k=0) -> dict:
 class Reporter:
     """Reports each keyed finding once per run (with its first witness), everything else always."""
 
+    MAX_UNKEYED = 25   # replay files written per run; further failures are only counted
+
     def __init__(self, ctx: Ctx):
         self.ctx = ctx
         self.keyed: dict[str, int] = {}
+        self.unkeyed = 0
 
     def report(self, what: str, replay: Any, key: Optional[str]) -> None:
         if key is not None:
@@ -346,6 +349,11 @@ class Reporter:
             if self.keyed[key] > 1:
                 return
             what = f"{WHAT[key]} -- witness: {what}"
+        else:
+            self.unkeyed += 1
+            self.ctx.note("unkeyed_failures", self.unkeyed)
+            if self.unkeyed > self.MAX_UNKEYED:
+                return
         self.ctx.violation(what, replay, key=key)
 
 
@@ -792,6 +800,23 @@ def validate_traces(ctx: Ctx, traces: list, what: str, *, dirs, names, bytes_, m
     for tid, code, pos in res.recs("VERDICT"):
         verdicts[tid] = (code, pos)
     return verdicts, res
+
+
+def judge_controls(ctx: Ctx, verdicts: dict, controls: list, what: str) -> None:
+    """
+    controls: (tid of the original trace, tid of its corrupted copy, expected verdict of the copy).
+    A control counts only if its original was accepted (on a broken tree the original may already
+    be rejected earlier, which says nothing about the machinery).
+    """
+    usable = [(o, c, e) for o, c, e in controls if verdicts[o][0] == 1]
+    if not usable:
+        # nothing accepted to corrupt: legitimate only when the run is failing anyway
+        ctx.require(bool(ctx.violations), f"no accepted recorded execution to build the control from: {what}")
+        ctx.cov.setdefault("negative_controls", []).append(
+            {"what": what, "rejected": None, "skipped": "no recorded execution was accepted (violations reported)"})
+        return
+    ctx.negative_control(all(tuple(verdicts[c]) == tuple(e) for _, c, e in usable),
+                         f"{what} ({len(usable)} corrupted copies)")
 
 
 def cleanup_root(root: Path) -> None:
